@@ -355,7 +355,7 @@ fn dec_strat(_: &Ctx) -> BoxedStrategy<DecCase> {
         b.append(&mut body);
         DecCase::Raw { hex: ber::hex(&b) }
     });
-    let tiny = proptest::sample::select(&["3000", "300102", "30020100", "3003020101", "30050201016100", "30050201016500", "300502010161 7f", "30060201010500a000", "3005020101a000", "30 0c 00 00 00 00 00 00 00 00 00 00 00 00", "30800000", "3084000000020101", "30030201ff", "300a0201018a0130a003"][..])
+    let tiny = proptest::sample::select(&["3000", "300102", "30020100", "3003020101", "30050201016100", "30050201016500", "300502010161 7f", "30060201010500a000", "3005020101a000", "30 0c 00 00 00 00 00 00 00 00 00 00 00 00", "30800000", "3084000000020101", "30030201ff", "300a0201018a0130a003", "308100", "30820000", "308400000000", "3080", "30810102", "30028100", "3003020100"][..])
         .prop_map(|h| DecCase::Raw { hex: h.replace(' ', "") });
     prop_oneof![8 => mutated, 2 => framed_random, 1 => vec(any::<u8>(), 0..48).prop_map(|b| DecCase::Raw { hex: ber::hex(&b) }), 1 => tiny].boxed()
 }
@@ -855,6 +855,8 @@ const SKEL: &[&[u8]] = &[
 #[derive(Clone, Debug, Serialize, Deserialize)]
 pub struct SkelCase {
     elems: Vec<u8>,
+    #[serde(default)]
+    form: u8,
 }
 
 fn skel_bytes(c: &SkelCase) -> Vec<u8> {
@@ -862,7 +864,14 @@ fn skel_bytes(c: &SkelCase) -> Vec<u8> {
     for e in &c.elems {
         body.extend_from_slice(SKEL[*e as usize % SKEL.len()]);
     }
-    let mut out = vec![0x30, body.len() as u8];
+    // outer length: short form, or a (non-minimal) long form with 1, 2 or 4 length octets
+    let mut out = vec![0x30];
+    match c.form % 4 {
+        0 => out.push(body.len() as u8),
+        1 => out.extend_from_slice(&[0x81, body.len() as u8]),
+        2 => out.extend_from_slice(&[0x82, 0, body.len() as u8]),
+        _ => out.extend_from_slice(&[0x84, 0, 0, 0, body.len() as u8]),
+    }
     out.extend_from_slice(&body);
     out
 }
@@ -886,15 +895,17 @@ fn skel_run(ctx: &Ctx, known: &[KnownFinding]) -> LaneReport {
                 elems.push((c % k) as u8);
                 c /= k;
             }
-            let case = SkelCase { elems };
-            crate::runner::eval_case(&mut rep, known, &case, |obs| {
-                let b = skel_bytes(&case);
-                judge_decoder(&b, obs)?;
-                obs.nontrivial(b);
-                Ok(())
-            });
-            if rep.failure.is_some() {
-                return rep;
+            for form in 0..4u8 {
+                let case = SkelCase { elems: elems.clone(), form };
+                crate::runner::eval_case(&mut rep, known, &case, |obs| {
+                    let b = skel_bytes(&case);
+                    judge_decoder(&b, obs)?;
+                    obs.nontrivial(b);
+                    Ok(())
+                });
+                if rep.failure.is_some() {
+                    return rep;
+                }
             }
         }
     }
@@ -918,7 +929,7 @@ pub fn property() -> Property {
     Property {
         id: "C11",
         level: "exploration",
-        rule: "lanes: decoder (a valid response message of any kind with exactly one mutation from the catalogue of DESIGN.md Appendix D - element deleted/duplicated/swapped, tag class/number/P-C changed, primitive emptied, over-long INTEGER, message id widened to 5-17 octets whose low octets still spell the original id, extra envelope element incl. the AD-style [10] trailer, any one TLV length falsified by +-delta (truncated/inflated inner lengths), byte set, truncation, outer tag changed, 12 malformed control lists - plus random bytes behind a plausible outer header and raw random bytes; oracle under catch_unwind: never a panic; if the octets announced by the outer length are all present the decoder must not answer 'need more'; a delivered frame consumes exactly the outer frame; input that is definitely not an envelope is never delivered); driver (the same delivered while 1-3 operations are pending on the simulated connection, incl. every response type under a live single or search id or under message id 0 (unsolicited notifications), with and without elements, alone or in the same read directly behind 1-3 well-formed frames; oracle: driver neither panics nor wedges (virtual watchdog), drive() returns, and for definite non-envelopes it returns an error that every pending operation observes); stack (child process, 2 MiB thread stack: frames with log-uniform 1..~250 000 nested constructed elements up to 1 MiB placed as envelope / protocolOp / controls; death by signal is the violation; a third of the chains use the indefinite length form inside a definite frame, with or without end-of-contents octets); skeletons (EXHAUSTIVE: every SEQUENCE of 0-4 (thorough 0-5) elements over a 14-element alphabet - valid id, id 0, operations with and without elements, valid / empty / primitive controls, AD-style [10] in three shapes, OCTET STRING, NULL, empty SEQUENCE - through the decoder oracle). Non-trivial: exactly one mutation away from a valid message, or random bytes starting with a plausible outer header; every driver and stack case. Distinct = hash of the bytes.",
+        rule: "lanes: decoder (a valid response message of any kind with exactly one mutation from the catalogue of DESIGN.md Appendix D - element deleted/duplicated/swapped, tag class/number/P-C changed, primitive emptied, over-long INTEGER, message id widened to 5-17 octets whose low octets still spell the original id, extra envelope element incl. the AD-style [10] trailer, any one TLV length falsified by +-delta (truncated/inflated inner lengths), byte set, truncation, outer tag changed, 12 malformed control lists - plus random bytes behind a plausible outer header and raw random bytes; oracle under catch_unwind: never a panic; if the octets announced by the outer length are all present the decoder must not answer 'need more'; a delivered frame consumes exactly the outer frame; input that is definitely not an envelope is never delivered); driver (the same delivered while 1-3 operations are pending on the simulated connection, incl. every response type under a live single or search id or under message id 0 (unsolicited notifications), with and without elements, alone or in the same read directly behind 1-3 well-formed frames; oracle: driver neither panics nor wedges (virtual watchdog), drive() returns, and for definite non-envelopes it returns an error that every pending operation observes); stack (child process, 2 MiB thread stack: frames with log-uniform 1..~250 000 nested constructed elements up to 1 MiB placed as envelope / protocolOp / controls; death by signal is the violation; a third of the chains use the indefinite length form inside a definite frame, with or without end-of-contents octets); skeletons (EXHAUSTIVE: every SEQUENCE of 0-4 (thorough 0-5) elements over a 14-element alphabet - valid id, id 0, operations with and without elements, valid / empty / primitive controls, AD-style [10] in three shapes, OCTET STRING, NULL, empty SEQUENCE - each with the outer length in short form and in 1-, 2- and 4-octet long form, through the decoder oracle). Non-trivial: exactly one mutation away from a valid message, or random bytes starting with a plausible outer header; every driver and stack case. Distinct = hash of the bytes.",
         assumptions: &[
             "harness classification of 'definitely not an envelope': outer TLV not a universal constructed SEQUENCE, fewer than two elements, first element not a 1-4 octet non-negative universal INTEGER, or inner lengths that overrun the outer frame",
             "a panic in the caller's task while converting a well-enveloped but ill-formed result is outside the statement (driver and envelope) and only labelled",
